@@ -5,6 +5,7 @@ import (
 	"go/ast"
 	"go/token"
 	"go/types"
+	"sort"
 	"strings"
 
 	"golang.org/x/tools/go/ssa"
@@ -177,6 +178,7 @@ func (e *Engine) emitWith(st *State, name, sub string, extraHyps []T, goal T, te
 		b.WriteString(d)
 		b.WriteString("\n")
 	}
+	e.writeDistinct(&b)
 	for _, h := range st.Hyps {
 		fmt.Fprintf(&b, "(assert %s)\n", h.S)
 	}
@@ -199,6 +201,19 @@ func (e *Engine) emitWith(st *State, name, sub string, extraHyps []T, goal T, te
 func (e *Engine) emitBroken(st *State, name string, cl *Clause, why string) {
 	q := &Query{Name: name, Sub: "broken", Text: "BROKEN", Goal: cl.Expr + " -- not generable: " + why, Func: e.curFn, Props: cl.Props, Clause: cl.Hash()}
 	e.queries = append(e.queries, q)
+}
+
+// writeDistinct: string literals denote pairwise different values.
+func (e *Engine) writeDistinct(b *strings.Builder) {
+	if len(e.strConsts) < 2 {
+		return
+	}
+	var names []string
+	for _, n := range e.strConsts {
+		names = append(names, n)
+	}
+	sort.Strings(names)
+	fmt.Fprintf(b, "(assert (distinct %s))\n", strings.Join(names, " "))
 }
 
 // emitCover: the hypotheses so far must be satisfiable.
